@@ -33,8 +33,9 @@ import (
 // returned byte slice is overwritten by the "caller" over its full capacity.
 
 type fhEnv struct {
-	rd      *fhReader
-	tracked []fhBuf
+	rd           *fhReader
+	keepReturned bool
+	tracked      []fhBuf
 	// persistent receivers that live through the whole sequence (created on first use): what a REJECTED decode does
 	// to its receiver is not specified, but whatever the receiver's limbs say afterwards, every later operation on
 	// the same object must agree with them
@@ -76,7 +77,7 @@ type fhBuf struct {
 func (e *fhEnv) slice(owner string, content []byte) []byte {
 	full := bytes.Repeat([]byte{0xa5}, 4+len(content)+40)
 	copy(full[4:], content)
-	e.tracked = append(e.tracked, fhBuf{owner, full, append([]byte{}, full...)})
+	e.tracked = append(e.tracked, fhBuf{"buffer handed to " + owner + " (the window starts at byte 4)", full, append([]byte{}, full...)})
 
 	return full[4 : 4+len(content)]
 }
@@ -86,7 +87,7 @@ func (e *fhEnv) modified() string {
 		if !bytes.Equal(b.full, b.snap) {
 			for i := range b.full {
 				if b.full[i] != b.snap[i] {
-					return fmt.Sprintf("buffer handed to %s: byte %d (window starts at 4) changed from %02x to %02x", b.owner, i, b.snap[i], b.full[i])
+					return fmt.Sprintf("%s: byte %d changed from %02x to %02x", b.owner, i, b.snap[i], b.full[i])
 				}
 			}
 		}
@@ -95,13 +96,28 @@ func (e *fhEnv) modified() string {
 	return ""
 }
 
-// scribble is the hostile caller: it overwrites a returned slice over its full capacity.
+// scribble is what the caller does with a slice the library returned. In the value parts it is the hostile caller: it
+// overwrites the slice over its full capacity (no later result may change). In the buffer part (C15) the caller KEEPS
+// the slice instead: it is registered like a buffer the caller handed in, and must hold its bytes for the rest of the
+// history - two results that share a backing array, or a result the library writes into again, show as a change.
 func scribble(b []byte) {
+	if e := fhCurrent; e != nil && e.keepReturned {
+		if cap(b) > 0 {
+			full := b[:cap(b)]
+			e.tracked = append(e.tracked, fhBuf{"a slice the library returned earlier in the history", full, append([]byte{}, full...)})
+		}
+
+		return
+	}
+
 	b = b[:cap(b)]
 	for i := range b {
 		b[i] ^= 0x5c
 	}
 }
+
+// fhCurrent is the environment of the sequence being run (one goroutine per process).
+var fhCurrent *fhEnv
 
 // fhReader is the entropy source of the fault histories: a fixed stream of distinct blocks (block i = SHA-256 of i),
 // with an optional failure after failIn more bytes.
@@ -157,8 +173,10 @@ type fhOp struct {
 	fam   string
 	fault bool // fails, or takes an unusual path
 	heavy bool // expensive (group multiplication, hashing to the group): thinner products
-	run   func(e *fhEnv) string
-	want  func(e *fhEnv) string // evaluated BEFORE run (may read the entropy position)
+	calib bool // behaviour not specified by any property (nil receivers, nil operands of CSelect): only the CLASS of the
+	// observation (panic / err / ok) is compared, and with what this very tree does when the call is the first one
+	run  func(e *fhEnv) string
+	want func(e *fhEnv) string // evaluated BEFORE run (may read the entropy position)
 }
 
 const (
@@ -225,6 +243,7 @@ func fhOps() []fhOp {
 	var ops []fhOp
 
 	add := func(o fhOp) {
+		o.calib = strings.Contains(o.name, "(nil)") && (strings.HasPrefix(o.name, "(*") || strings.HasPrefix(o.name, "CSelect"))
 		inner := o.run
 		o.run = func(e *fhEnv) string { return fhGuard(func() string { return inner(e) }) }
 		ops = append(ops, o)
@@ -534,6 +553,15 @@ func fhOps() []fhOp {
 		o := fmt.Sprintf("%x/%x/%s", a, m, s.Hex())
 		scribble(a)
 		scribble(m)
+
+		return o
+	}})
+
+	add(fhOp{name: "Scalar encoders(7)", fam: "senc", want: constant(fmt.Sprintf("%x/%s", ref.Bytes32(big.NewInt(7)), hex7)), run: func(e *fhEnv) string {
+		s := newScalar(big.NewInt(7))
+		a := s.Encode()
+		o := fmt.Sprintf("%x/%s", a, s.Hex())
+		scribble(a)
 
 		return o
 	}})
@@ -931,11 +959,12 @@ func fhIn(fams []string, f string) bool {
 // own, shorter sequences). buffers: report modifications of caller memory (C15) instead of wrong results.
 func fhRun(seq []int, buffers bool) (key, detail string) {
 	ops := fhOps()
-	env := &fhEnv{rd: &fhReader{failIn: -1}}
+	env := &fhEnv{rd: &fhReader{failIn: -1}, keepReturned: buffers}
 	saved := rand.Reader
 	rand.Reader = env.rd
+	fhCurrent = env
 
-	defer func() { rand.Reader = saved }()
+	defer func() { rand.Reader, fhCurrent = saved, nil }()
 
 	names := make([]string, len(seq))
 	for i, s := range seq {
@@ -947,6 +976,15 @@ func fhRun(seq []int, buffers bool) (key, detail string) {
 		want := o.want(env)
 		got := o.run(env)
 		last := i == len(seq)-1
+
+		if o.calib {
+			c, ok := fhCalibrated[o.name]
+			if !ok {
+				continue // not calibrated (the cold runs disagreed): no statement about this call
+			}
+
+			want, got = c, fhClass(got)
+		}
 
 		if buffers {
 			if m := env.modified(); m != "" {
@@ -967,6 +1005,40 @@ func fhRun(seq []int, buffers bool) (key, detail string) {
 	}
 
 	return "", ""
+}
+
+// fhCalibrated: class of the observation of the calls whose behaviour no property specifies, as this tree shows it
+// when the call is the first one after process start.
+var fhCalibrated = map[string]string{}
+
+func fhClass(obs string) string {
+	switch {
+	case obs == fhPanic, obs == fhErr:
+		return obs
+	case strings.HasPrefix(obs, "ok"):
+		return "ok"
+	}
+
+	return "value"
+}
+
+func fhCalibrate() {
+	for _, o := range fhOps() {
+		if !o.calib {
+			continue
+		}
+
+		if _, done := fhCalibrated[o.name]; done {
+			continue
+		}
+
+		a := fhClass(o.run(&fhEnv{rd: &fhReader{failIn: -1}}))
+		b := fhClass(o.run(&fhEnv{rd: &fhReader{failIn: -1}}))
+
+		if a == b {
+			fhCalibrated[o.name] = a
+		}
+	}
 }
 
 func clip(s string) string {
@@ -993,6 +1065,11 @@ func faultPart(prop string) func(r *ev.Report) {
 		fams := fhFamilies[prop]
 		buffers := prop == "C15"
 
+		saved := rand.Reader
+		rand.Reader = &fhReader{failIn: -1}
+		fhCalibrate()
+		rand.Reader = saved
+
 		si, sn := 0, 1
 		fmt.Sscanf(os.Getenv("VERIF_SHARD"), "%d/%d", &si, &sn)
 
@@ -1000,7 +1077,7 @@ func faultPart(prop string) func(r *ev.Report) {
 			sn = 1
 		}
 
-		r.Rule("fault histories: a catalogue of concrete API calls (every decoder x valid / malformed inputs, textual forms, encoders, group and scalar arithmetic, comparisons, Bits, the three hashing functions x DST classes incl. oversize and zero-length, Random on a stream of distinct blocks incl. failing sources, nil receivers; failing calls are recovered by the caller) with the observation the model prescribes for each; on one goroutine per process, ALL sequences [A, C] over the catalogue and ALL sequences [A, F, C] with F a failing or unusual call and A, C of one family, C ranging over the families of this property; oracle: the last call's observation equals the model's regardless of the history (C15: every buffer handed to any call of the history is bit-identical over its whole backing array after every step); returned slices are overwritten by the caller over their full capacity; observation without verdict: whether method values of the read-only methods bound before an in-place change describe the current value")
+		r.Rule("fault histories: a catalogue of concrete API calls (every decoder x valid / malformed inputs, textual forms, encoders, group and scalar arithmetic, comparisons, Bits, the three hashing functions x DST classes incl. oversize and zero-length, Random on a stream of distinct blocks incl. failing sources, nil receivers - for these, whose behaviour no property specifies, only the class panic / error / value is compared, with what the tree itself does when the call comes first; failing calls are recovered by the caller) with the observation the model prescribes for each; on one goroutine per process, ALL sequences [A, C] over the catalogue and ALL sequences [A, F, C] and [F, A, C] with F a failing or unusual call and A, C of one family, C ranging over the families of this property; oracle: the last call's observation equals the model's regardless of the history (C15: every buffer handed to any call of the history, and every slice a call of the history RETURNED, is bit-identical over its whole backing array after every later step); returned slices are overwritten by the caller over their full capacity; observation without verdict: whether method values of the read-only methods bound before an in-place change describe the current value")
 		r.Bound("catalogue", len(ops))
 		r.Bound("shard", fmt.Sprintf("%d/%d", si, sn))
 
@@ -1054,6 +1131,10 @@ func faultPart(prop string) func(r *ev.Report) {
 					}
 
 					seqs = append(seqs, []int{a, f, c})
+
+					if oa.fam == ops[c].fam {
+						seqs = append(seqs, []int{f, a, c}) // two ordinary calls after the failing one
+					}
 				}
 			}
 		}
@@ -1128,6 +1209,8 @@ func ReplayFaultHist(c Case) (bool, string) {
 			return false, "history does not apply to this catalogue"
 		}
 	}
+
+	fhCalibrate()
 
 	for _, b := range strings.Split(c["before"], ";") {
 		var pre []int
